@@ -323,7 +323,8 @@ fn parse_helper(pat: &mut &str, result: &mut Vec<Atom>) -> Result<(), PatError> 
 		depth: usize,
 	}
 	let mut subs = Vec::<SubPattern>::new();
-	// Atoms before this index are the target of a break, wildcards after it must not be merged into them
+	// Atoms before this index are final (the target of a break, or a jump a brace already belongs to):
+	// wildcards after it must not be merged into them, braces after it must not rewrite them
 	let mut barrier = 0;
 	while let Some(mut chr) = iter.next().cloned() {
 		match chr {
@@ -336,6 +337,10 @@ fn parse_helper(pat: &mut &str, result: &mut Vec<Atom>) -> Result<(), PatError> 
 			// Start recursive operator
 			b'{' => {
 				depth += 1;
+				// The jump operator must not be part of a closed group or already have a sub pattern
+				if result.len() <= barrier {
+					return Err(PatError::StackInvalid);
+				}
 				// Must follow a jump operator and insert push before the jump
 				let atom = match result.last_mut() {
 					Some(atom @ Atom::Jump1) => mem::replace(atom, Atom::Push(1)),
@@ -344,6 +349,7 @@ fn parse_helper(pat: &mut &str, result: &mut Vec<Atom>) -> Result<(), PatError> 
 					_ => return Err(PatError::StackInvalid),
 				};
 				result.push(atom);
+				barrier = result.len();
 			},
 			// End recursive operator
 			b'}' => {
